@@ -111,7 +111,20 @@ func (c *Ctx) checkHeaderAppend(rule, parser, field, literal string) {
 			if l == nil || !l.Blocks[fct.If.Block()] || fct.If.Block() == l.Head {
 				continue
 			}
-			cond, _ := normCond(fct.Cond, fct.Truth)
+			cond, truth := normCond(fct.Cond, fct.Truth)
+			if ex, ok := cond.(*ssa.Extract); ok && truth && hcall != nil && ex.Tuple == ssa.Value(hcall) && isBoolType(ex.Type()) {
+				// the iterator's own "there was a header" result, whose
+				// negation leaves the loop
+				leaves := false
+				for _, s := range fct.If.Block().Succs {
+					if !l.Blocks[s] {
+						leaves = true
+					}
+				}
+				if leaves {
+					continue
+				}
+			}
 			if cmp, ok := cond.(*ssa.BinOp); ok {
 				if _, isLit := constStr(cmp.Y); isLit {
 					continue // header-key comparisons of the switch
